@@ -291,13 +291,48 @@ func edgeDominates(d *ssa.BasicBlock, i int, b *ssa.BasicBlock) bool {
 	return true
 }
 
-// FactsAt returns the branch conditions that hold on every path to block b.
+// FactsAt returns the branch conditions that hold on every path to block b, including
+// what error-checked / boolean guard helpers of the module establish (as Bound values).
 func FactsAt(b *ssa.BasicBlock) []Fact {
+	return factsAtDepth(b, 0)
+}
+
+func factsAtDepth(b *ssa.BasicBlock, depth int) []Fact {
 	var out []Fact
 	for d := b.Idom(); d != nil; d = d.Idom() {
 		out = appendFactsOf(out, d, b)
 	}
-	return out
+	if depth > 1 {
+		return out
+	}
+	// facts imported from guard helpers
+	var imp []Fact
+	for _, f := range out {
+		cv, taken := normCond(f.Cond, f.Taken)
+		// boolean helper: `if helper(args) {`
+		if c, ok := cv.(*ssa.Call); ok {
+			outcome := "false"
+			if taken {
+				outcome = "true"
+			}
+			imp = append(imp, importedFacts(c, outcome, depth)...)
+			continue
+		}
+		// error helper: `if err := helper(args); err != nil { return }` — on the nil side
+		if x, isNil, ok := NilFact(Fact{cv, taken, f.If}); ok && isNil {
+			var call *ssa.Call
+			switch y := x.(type) {
+			case *ssa.Call:
+				call = y
+			case *ssa.Extract:
+				call, _ = y.Tuple.(*ssa.Call)
+			}
+			if call != nil && isErrorType(x.Type()) {
+				imp = append(imp, importedFacts(call, "nil", depth)...)
+			}
+		}
+	}
+	return append(out, imp...)
 }
 
 func appendFactsOf(out []Fact, d, b *ssa.BasicBlock) []Fact {
@@ -361,6 +396,13 @@ func FactsAtInstr(in ssa.Instruction) []Fact { return FactsAt(in.Block()) }
 // Unparen strips unary NOT, flipping polarity.
 func normCond(v ssa.Value, taken bool) (ssa.Value, bool) {
 	for {
+		if b, ok := v.(*Bound); ok {
+			if u, ok := b.V.(*ssa.UnOp); ok && u.Op == token.NOT {
+				v, taken = bindValue(u.X, b.Bind), !taken
+				continue
+			}
+			return v, taken
+		}
 		if u, ok := v.(*ssa.UnOp); ok && u.Op == token.NOT {
 			v, taken = u.X, !taken
 			continue
@@ -378,7 +420,8 @@ func IsNilConst(v ssa.Value) bool {
 // NilFact: if fact says "x == nil" or "x != nil" returns (x, isNil, true).
 func NilFact(f Fact) (x ssa.Value, isNil bool, ok bool) {
 	v, taken := normCond(f.Cond, f.Taken)
-	b, isb := v.(*ssa.BinOp)
+	inner, bind := Unbind(v)
+	b, isb := inner.(*ssa.BinOp)
 	if !isb || (b.Op != token.EQL && b.Op != token.NEQ) {
 		return nil, false, false
 	}
@@ -390,6 +433,9 @@ func NilFact(f Fact) (x ssa.Value, isNil bool, ok bool) {
 		other = b.Y
 	default:
 		return nil, false, false
+	}
+	if bind != nil {
+		other = bindValue(other, bind)
 	}
 	eq := b.Op == token.EQL
 	return other, eq == taken, true
@@ -695,10 +741,10 @@ func classifyErrValue(v ssa.Value, at *ssa.BasicBlock, depth int) int {
 }
 
 var errorCtors = map[string]bool{
-	"errors.New":                                     true,
-	"github.com/pkg/errors.New":                      true,
-	"github.com/pkg/errors.Errorf":                   true,
-	"fmt.Errorf":                                     true,
+	"errors.New":                   true,
+	"github.com/pkg/errors.New":    true,
+	"github.com/pkg/errors.Errorf": true,
+	"fmt.Errorf":                   true,
 	"github.com/0chain/common/core/common.NewError":  true,
 	"github.com/0chain/common/core/common.NewErrorf": true,
 	"0chain.net/core/common.NewError":                true,
@@ -914,6 +960,17 @@ type Root struct {
 // AccessPath renders a value as a dotted access path from a parameter/free variable/
 // global/call, e.g. "t.ClientID", "sc.ID", "call:GetMinter()", or "" if not a path.
 func AccessPath(v ssa.Value) string {
+	if b, ok := v.(*Bound); ok {
+		root, path := BaseObject(b)
+		if _, still := root.(*Bound); still {
+			return ""
+		}
+		base := AccessPath(root)
+		if base == "" {
+			return ""
+		}
+		return base + path
+	}
 	switch x := v.(type) {
 	case *ssa.Parameter:
 		return x.Name()
@@ -1254,7 +1311,6 @@ func EnclosingNamed(f *ssa.Function) *ssa.Function {
 	}
 	return f
 }
-
 
 var sentinelCache = map[*ssa.Global]bool{}
 
